@@ -24,6 +24,7 @@ void verif_fail_alloc_at(std::uint64_t k) noexcept;   // 0 = never; k = fail the
 std::uint64_t verif_alloc_count(void) noexcept;       // allocations attempted since last arm/reset
 std::uint64_t verif_live_allocs(void) noexcept;       // live heap blocks (model) / counted (native)
 std::uint64_t verif_live_bytes(void) noexcept;
+std::uint64_t verif_mutex_held(void) noexcept;      // number of std::mutex currently locked (ghost / interposed)
 }
 
 #define PROP(c, msg) __CPROVER_assert((c), msg)
